@@ -159,3 +159,86 @@ for (bs, nb, tier) in [(2, 2, "quick"), (2, 4, "thorough"), (4, 2, "thorough")]:
     tag = "bs%dnb%d" % (bs, nb)
     p["units"].append(M("ck_delete_" + tag, tier, "delete(x): true iff a copy of x's class is stored; removes exactly one copy of that class; len-1", tag, model="cuckoo", op="delete", bs=bs, nb=nb, kicks=2, need_witness=["ret"]))
     p["units"].append(M("ck_query_" + tag, tier, "query(y) iff count(class y) >= 1; pure", tag, model="cuckoo", op="query", bs=bs, nb=nb, kicks=2, need_witness=["ret"]))
+
+# --------------------------------------------------------------------------- C13
+QF_ASSUME = COMMON_K_ASSUME + [
+    "pre-states are enc(X): the canonical slot layout of a symbolic member set X (reference encoder in the harness crate: two laps over the quotients, runs start at max(q, first free), remainders ascending); "
+    "enc is validated natively against the real filter for every subset and several insertion orders (history independence) on every run",
+    "hasher IdBH: hash_one(x) = x, x a full symbolic u64 (only the low q+r bits may matter)",
+]
+p = prop("C13", engine="kani",
+         functions=["QuotientFilter::{with_params_and_hash,insert,insert_internal,scan,incr,decr,query,calc_quotient_remainder,len,is_empty,clear}", "ScanResult::{has_run,at_start_of_run}"],
+         bounds={"quick": "(q,r)=(2,2): 4 slots, 16 fingerprint classes, every member set of <= 4 classes, every element (64-bit hash); one insert / query from every reachable state",
+                 "thorough": "adds (1,2) and (1,1)"},
+         outside=["more than 4 slots in the Kani harnesses (engine M units cover 8 slots when built)", "remainder widths > 2 bits in container harnesses (the quotient/remainder split is checked as a 64-bit kernel)"],
+         assumptions=QF_ASSUME)
+p["units"] += [
+    K("h_qf::qf_fresh_q2r2", "quick", "new == enc(empty set)", "(2,2)"),
+    K("h_qf::qf_insert_vs_enc_q2r2", "quick", "insert(y) on enc(X): Ok(true)/Ok(false)/Err(Full) exactly as specified, post-state == enc(X') , len == |X'|", "(2,2)", mem_class_gb=8, timeout_s=2400),
+    K("h_qf::qf_query_vs_enc_q2r2", "quick", "query(y) on enc(X) <=> class(y) in X (presence and absence)", "(2,2)", mem_class_gb=8, timeout_s=2400),
+    K("h_qf::qf_insert_vs_enc_q1r2", "thorough", "insert vs enc", "(1,2)", mem_class_gb=8, timeout_s=2400),
+    K("h_qf::qf_query_vs_enc_q1r2", "thorough", "query vs enc", "(1,2)", mem_class_gb=8, timeout_s=2400),
+    K("h_qf::qf_insert_vs_enc_q1r1", "thorough", "insert vs enc", "(1,1)", mem_class_gb=8, timeout_s=2400),
+    K("h_qf::qf_query_vs_enc_q1r1", "thorough", "query vs enc", "(1,1)", mem_class_gb=8, timeout_s=2400),
+]
+
+# --------------------------------------------------------------------------- C12
+p = prop("C12", engine="mir2smt+kani",
+         technique="symbolic execution of the crate's MIR into SMT (z3): Err branches of insert/union from arbitrary valid tables; Kani for the quotient filter",
+         functions=["CuckooFilter::{insert,union,insert_internal,write_to_bucket,restore_state}", "QuotientFilter::{insert,insert_internal,union}"],
+         bounds={"quick": "cuckoo: 4 slots (2x2), insert: eviction chains <=2 and <=4; union of two arbitrary tables: all 16 occupancy patterns of `other`, chains <=1. QF: (2,2) insert from every reachable state, union at (1,2) and (1,1)",
+                 "thorough": "adds 8-slot cuckoo inserts, chains <=6, union chains <=2"},
+         outside=["cuckoo tables > 8 slots / union on > 4 slots", "QF union on 4 slots (engine M case split not built yet)"],
+         assumptions=M_ASSUME + QF_ASSUME + ["observational comparison for the cuckoo filter: len, and for an arbitrary class c the number of stored copies (determines query and the number of possible deletes); raw equality to enc(X) for the quotient filter (sufficient, not necessary)"])
+for (bs, nb, kicks, tier) in [(2, 2, 2, "quick"), (2, 2, 4, "quick"), (2, 4, 2, "thorough"), (4, 2, 2, "thorough"), (2, 2, 6, "thorough")]:
+    tag = "bs%dnb%dk%d" % (bs, nb, kicks)
+    p["units"].append(M("ck_insert_" + tag, tier, "failed insert leaves len and every class count unchanged (Err paths; Ok paths checked too)", tag,
+                        model="cuckoo", op="insert", bs=bs, nb=nb, kicks=kicks, need_witness=["ok", "err"], timeout_s=3600))
+for pat in range(16):
+    p["units"].append(M("ck_union_bs2nb2k1_b%x" % pat, "quick", "a.union(&b), b's occupied slots = pattern %s: Err => a observationally unchanged; Ok => counts add; b unchanged" % format(pat, "04b"),
+                        "4+4 slots, <=1 kick", model="cuckoo", op="union", bs=2, nb=2, kicks=1, b_mask=pat, timeout_s=3600,
+                        need_witness=(["err"] if bin(pat).count("1") >= 1 else ["ok"])))
+for pat in range(16):
+    p["units"].append(M("ck_union_bs2nb2k2_b%x" % pat, "thorough", "union, <=2 kicks, pattern %s" % format(pat, "04b"), "4+4 slots, <=2 kicks",
+                        model="cuckoo", op="union", bs=2, nb=2, kicks=2, b_mask=pat, timeout_s=7200))
+p["units"] += [
+    K("h_qf::qf_insert_vs_enc_q2r2", "quick", "QF: failed insert (Err) leaves the raw state == enc(X), len unchanged", "(2,2)", mem_class_gb=8, timeout_s=2400),
+    K("h_qf::qf_union_vs_enc_q1r2", "quick", "QF union of two arbitrary canonical states: Err iff |X u Y| > 2^q, then state == enc(X), other untouched", "(1,2)", mem_class_gb=8, timeout_s=3600),
+    K("h_qf::qf_union_vs_enc_q1r1", "thorough", "QF union", "(1,1)", mem_class_gb=8, timeout_s=3600),
+]
+
+# --------------------------------------------------------------------------- C09
+MC_ASSUME = [
+    "engine M: own symbolic interpreter over rustc's MIR dump (dev profile, overflow checks on) of /repo's current tree; z3 decides every path query; every arithmetic-overflow / unwrap panic path must be infeasible",
+    "std containers are contracts over a key universe of 3 keys: HashMap = present[k]/val[k] with entry/get_mut/insert/remove/len/drain/filter/collect/iter/clear/new as documented; closures are interpreted from their own MIR per key",
+    "every SMT counterexample is re-executed natively (pre-state built through verif hooks) and reported only if the violated clause also fails there",
+]
+p = prop("C09", engine="mir2smt",
+         technique="symbolic execution of the crate's MIR into SMT (z3): inductive invariant (Manku-Motwani) over a HashMap contract, one add from any state; query thresholds as exact dyadic floats",
+         functions=["LossyCounter::{with_width,add,add::{closure#0},query,query::{closure#0},clear,clone,n,width}"],
+         bounds="key universe 3; 64-bit counters; n < 2^61, any width >= 1 (symbolic) for add; query: width in {1,2,4,8,16,32,64} (epsilon = 1/width exact), threshold a/64, n < 2^20",
+         outside=["the table-size bound width*(H(ceil(n/width))+1): a counting argument over whole histories, not a step property — not decided",
+                  "with_epsilon for epsilon that is not 1/width", "alphabets larger than 3 keys (the invariant is per key; interaction is only through n)"],
+         assumptions=MC_ASSUME + ["Div/Rem by the symbolic width are uninterpreted functions + division lemma and its successor form (the latter discharged on 16-bit words with real bvudiv/bvurem)",
+                                  "ghost T[x] = true count of x; invariant (A): tracked x: f>=1, f<=T<=f+delta, delta<=ceil(n/w)-1; untracked x: T<=floor(n/w); sum T = n"])
+p["units"] += [
+    M("lossy_add_step", "quick", "one add(y) from any state satisfying the invariant: n+1, returns true iff y untracked, invariant re-established; no panic", "K=3, 64-bit", model="lossy", what_m="add", need_witness=["ret", "pruned_at_window_end"], timeout_s=2400),
+    M("lossy_new_clear_clone", "quick", "with_width(w) is the empty counter with epsilon=1/w (panics iff w=0); clear() resets to it; clone() equal", "K=3", model="lossy", what_m="new_clear_clone", need_witness=["ret", "clear_ret"]),
+]
+for w in (1, 2, 4, 16, 64):
+    p["units"].append(M("lossy_query_w%d" % w, "quick" if w in (2, 16) else "thorough", "from the invariant: query(a/64) contains every x with T>=s*n and T>eps*n and no x with T<(s-eps)*n", "width=%d, n<2^20" % w,
+                        model="lossy", what_m="query", width=w, need_witness=["frequent_exists"], timeout_s=2400))
+# --------------------------------------------------------------------------- C10
+p = prop("C10", engine="mir2smt",
+         technique="symbolic execution of the crate's MIR into SMT (z3): inductive top-k invariant over HashMap/BTreeSet/Rc contracts, sketch replaced by the C02 contract",
+         functions=["CMSHeap::{add,iter(contract),is_empty,clear}", "TreeEntry::{clone}"],
+         bounds="key universe 3; k in {1,2}; 64-bit counts < 2^60; sketch estimate any c with T'[y] <= c <= T'[y]+E (E symbolic)",
+         outside=["k > 2 / more than 3 keys", "the sketch itself (C02 is assumed as a contract: proved modulo C02)", "BTreeSet ordering is the contract (n, obj) ascending, as TreeEntry::cmp defines"],
+         assumptions=MC_ASSUME + ["BTreeSet<TreeEntry> = set with at most one entry per key (a second entry for a key is reported as a model limit and must be infeasible); iter().next() = minimum by (n, obj)",
+                                  "Rc<T> = the value; CountMinSketch::add(y) returns any c with true'(y) <= c <= true'(y)+E",
+                                  "dev-profile MIR: debug_assert! is checked (the test suite runs in this profile)"])
+p["units"] += [
+    M("heap_add_step", "quick", "one add(y) from any state satisfying the top-k invariant: no panic (incl. debug_assert), invariant re-established", "K=3, k<=2", model="heap", what_m="add", kmax=2, need_witness=["ret", "kicked_out_minimum", "first_seen_with_inflated_estimate"]),
+    M("heap_consequences", "quick", "the statement's clauses follow from the invariant: |iter| = min(k, distinct seen), all added, missing x => k tracked with T >= T[x]-E", "K=3, k<=2", model="heap", what_m="consequences", kmax=2),
+    M("heap_clear", "quick", "clear empties map, tree and sketch; is_empty iff nothing tracked", "K=3", model="heap", what_m="clear", need_witness=["ret"]),
+]
